@@ -173,6 +173,23 @@ Proof.
   repeat split; vm_compute; reflexivity.
 Qed.
 
+(* ---- substitution: the body of the inner loop (rows 3..), first copy of the outer body, first inner element *)
+Definition ex_c00 : ctx := bind_loop ex_c0 n_cx (Some n_x) (S_ "p") 0.
+Definition n_p := S_ "p".
+Definition ex_b00 : list raw := [l_plain "" "0:p0"].
+Definition ex_row3_substituted : raw := x_plain IncTrue [] [Ref (S_ "i"); Lit (S_ ":"); Lit (S_ "p"); Lit (S_ "0")].
+Example body_substituted_nonvacuous :
+  Forall (no_rebind n_cx) (skipn 3 ex_rows) /\ Forall (no_rebind n_x) (skipn 3 ex_rows)
+  /\ ds Strict 40 (skipn 3 ex_rows) ex_c00 BFor false = ROk ([l_plain "" "0:p0"], skipn 5 ex_rows)
+  /\ ds Strict 40 (subst_loop n_cx (Some n_x) (S_ "p") 0 (skipn 3 ex_rows)) ex_c0 BFor false
+     = ROk ([l_plain "" "0:p0"], subst_loop n_cx (Some n_x) (S_ "p") 0 (skipn 5 ex_rows))
+  /\ nth 0 (subst_loop n_cx (Some n_x) (S_ "p") 0 (skipn 3 ex_rows)) end_row
+     = x_plain IncTrue [] [Ref (S_ "i"); Lit (S_ ":"); Lit (S_ "p"); Lit (S_ "0")].
+Proof.
+  split; [|split; [|repeat split; vm_compute; reflexivity]];
+    repeat constructor; unfold no_rebind; cbn; intros H; repeat (destruct H as [H|H]; [vm_compute in H; discriminate|]); exact H.
+Qed.
+
 (* ---- what fails under the other behaviours (the code before the repairs) *)
 (* dict.pop after end_for (ScopePop): the inner loop deletes cx; row 5 then names an unknown variable
    although the desugared sheet is fine; read leniently, the sheet is accepted but says something else
